@@ -34,6 +34,18 @@ theorem C16_partial (b1 b2 : Env) (e : Expr) :
       tauto
 
 
+/-- **C16_eval_free**: evaluation looks at the bindings of the free symbols only (extra or
+    different bindings of other names never matter) — `evaluate` substitutes by symbol name. -/
+theorem C16_eval_free (env1 env2 : Env) (e : Expr) (h : ∀ s ∈ free e, env1 s = env2 s) :
+    eval env1 e = eval env2 e := by
+  induction e with
+  | num n => rfl
+  | sym s => simp [eval, h s (by simp [free])]
+  | inf b => rfl
+  | un o a ih => simp [eval, ih (by simpa [free] using h)]
+  | bin o a b iha ihb =>
+    simp [eval, iha (fun s hs => h s (by simp [free, hs])), ihb (fun s hs => h s (by simp [free, hs]))]
+
 /-- **C16_int_ops**: the evaluator's `//`, `%`, floor, ceiling, trunc, max, min have Python's integer
     semantics.  For integers `a`, `b` (`b ≠ 0`): `a // b` and `a % b` are floor division and its
     remainder (`Int.fdiv` / `Int.fmod`), characterised by `a = b * q + r` with the remainder taking
